@@ -198,8 +198,31 @@ HOOKS["binop"].insert(0, _binop)
 
 def _comp(models, it, e, iterable, fr, kind):
     # a comprehension over an opaque list / with an opaque filter is an opaque list
-    if kind == "list" and isinstance(iterable, SOpaque) and iterable.sort in ("AnyList", "AnyKeys", "AnyVals"):
+    if kind == "list" and isinstance(iterable, SOpaque) and iterable.sort in ("AnyList", "AnyKeys", "AnyVals", "AnyDict"):
         return mk(it, "AnyList", "comp")
+    if kind in ("list", "dict"):
+        # a filter / element expression that consults an opaque collection: which elements survive is unknown
+        for n in ast.walk(e):
+            if isinstance(n, ast.Attribute) and isinstance(n.value, ast.Name):
+                f = fr
+                while f is not None and n.value.id not in f.env:
+                    f = f.parent
+                base = f.env[n.value.id] if f is not None else None
+                if isinstance(base, Ref) and hasattr(it.run.obj(base), "fields"):
+                    v = it.run.obj(base).fields.get(n.attr)
+                    if isinstance(v, SOpaque) and v.sort in ANY:
+                        _note(models, it)
+                        return mk(it, "AnyDict" if kind == "dict" else "AnyList", "comp")
+            if isinstance(n, ast.Name) and isinstance(n.ctx, ast.Load):
+                f = fr
+                while f is not None:
+                    if n.id in f.env:
+                        v = f.env[n.id]
+                        if isinstance(v, SOpaque) and v.sort in ANY:
+                            _note(models, it)
+                            return mk(it, "AnyDict" if kind == "dict" else "AnyList", "comp")
+                        break
+                    f = f.parent
     return NotImplemented
 
 
@@ -207,7 +230,7 @@ HOOKS["comp"].insert(0, _comp)
 
 
 def _iter_symbolic(models, it, iterable, node):
-    if isinstance(iterable, SOpaque) and iterable.sort in ("AnyList", "AnyKeys", "AnyVals"):
+    if isinstance(iterable, SOpaque) and iterable.sort in ("AnyList", "AnyKeys", "AnyVals", "AnyDict"):
         n = any_len(it, iterable)
         return n, (lambda k: it.run.fresh("Real", "anyelem"))
     return NotImplemented
@@ -298,3 +321,20 @@ def _spec_bag_within(self, e, fr):
 
 
 X.Interp.spec_bag_within = _spec_bag_within
+
+
+def _np_dirichlet(models, it, args, kw, fr, node):
+    models.note(it, "havoc:np.random.dirichlet (an arbitrary vector; only used as resampling weights)")
+    return mk(it, "AnyList", "dirichlet")
+
+
+_arrays.EXTRA_EXT["numpy.random.dirichlet"] = _np_dirichlet
+
+
+def _getitem_list(models, it, base, idx, node):
+    if isinstance(base, SOpaque) and base.sort == "AnyList":
+        return it.run.fresh("Real", "anyelem")
+    return NotImplemented
+
+
+HOOKS["getitem"].insert(0, _getitem_list)
